@@ -12,9 +12,14 @@ META = {
   "text": "Lean 4 theorems (Props/C14.lean): out-of-range ticks and prices are rejected, RoundDownTickToSpacing equals t - (t mod spacing) with the stated bounds, and whenever the sqrt-price search returns a tick its bucket contains the sqrt price (lower edge inclusive, upper exclusive). Monotonicity/closed-formula theorems are being added (Props/C14Mono.lean); until then those clauses are decided by the engine's per-tick oracle (thorough tier sweeps the tick range).",
   "note": "Trusted: Lean kernel, engine `tick` (bit-exact model/code agreement), big.Rat closed formula in the oracle. PARTIAL until C14Mono lands: strict monotonicity and the round trip are tested (incl. strided/exhaustive sweeps), not proved.",
  },
+ "C18": {
+  "text": "Lean 4 theorems (Props/C18.lean): every epoch's allocation sums to the minted amount with each share the truncated proportion, the community pool takes the remainder and the mint account ends empty; exactly the integer part of the provision is minted; the provision is reduced exactly once per reduction period over ANY number of consecutive epochs (induction) and never before the start epoch; the reported-supply delta is characterised exactly (equal to the minted amount iff the receivers' truncated portions add up to the developer reward). Model tied to x/mint through the real app keepers.",
+  "note": "Trusted: Lean kernel, engine `mint` (real keeper, bank, distribution through apptesting), SDK bank semantics. Known finding F7 (reported supply short by the receivers' truncation dust).",
+ },
 }
 NOT_APPLICABLE_REASONS = {}
 ENGINES = [
+ {"name": "mint", "path": "harness/engines/app/mint_test.go", "serves_properties": ["C18"], "kind_free_text": "Go test binary embedding apptesting.KeeperTestHelper: real x/mint keeper driven epoch by epoch, balances/supply observed; replayed through the Lean model"},
  {"name": "num", "path": "harness/cmd/pure/num.go", "serves_properties": ["C12"], "kind_free_text": "in-process Go driver of osmomath.BigDec/Dec with big.Rat oracle; op stream replayed through the Lean model"},
  {"name": "math", "path": "harness/cmd/pure/math.go", "serves_properties": ["C13"], "kind_free_text": "in-process driver of osmomath approximate math with 700-bit reference oracle; replayed through the Lean model"},
  {"name": "tick", "path": "harness/cmd/pure/tick.go", "serves_properties": ["C14"], "kind_free_text": "in-process driver of CL tick/price conversions with closed-formula oracle and full-range sweep; replayed through the Lean model"},
